@@ -881,6 +881,41 @@ package framework
 // never runs a reverse closure, and leaves the session skeleton alone. Everything else may change
 // (fit errors recorded on the job, plugin-private state), hence `modifies *`.
 
+// ASSUMED frame of one plugin callback (stated in the `type:` contracts of package api)
+//@ define pluginFrame() bool = logsSame() && noEmission() && reversals() == old(reversals()) && reverseFailures() == old(reverseFailures()) && (forall st *Statement :: st.ssn == old(st.ssn))
+
+// the session skeleton, piecewise (each piece survives a callback through the `stable` declarations at the end of this
+// file; together they give sessionKept(ssn) from sessOK(ssn))
+//@ define skelSame(ssn *Session) bool = ssn.ClusterInfo == old(ssn.ClusterInfo) && ssn.Cache == old(ssn.Cache) && ssn.eventHandlers == old(ssn.eventHandlers) && ssn.ClusterInfo.Nodes == old(ssn.ClusterInfo.Nodes) && ssn.ClusterInfo.PodGroupInfos == old(ssn.ClusterInfo.PodGroupInfos)
+//@ define handlersSame(ssn *Session) bool = forall i int :: 0 <= i && i < len(ssn.eventHandlers) ==> ssn.eventHandlers[i] == old(ssn.eventHandlers[i])
+//@ define nodesSame(ssn *Session) bool = forall k string :: (k in ssn.ClusterInfo.Nodes) == old(k in ssn.ClusterInfo.Nodes) && ssn.ClusterInfo.Nodes[k] == old(ssn.ClusterInfo.Nodes[k])
+//@ define jobsSame(ssn *Session) bool = forall k common_info.PodGroupID :: (k in ssn.ClusterInfo.PodGroupInfos) == old(k in ssn.ClusterInfo.PodGroupInfos) && ssn.ClusterInfo.PodGroupInfos[k] == old(ssn.ClusterInfo.PodGroupInfos[k])
+
+// C04 "every pod the scheduler binds or nominates goes to a node that ... (all hard constraints)": the session
+// verdict is the conjunction of EVERY registered predicate (first error wins).
+//@ define predicatesOK(ssn *Session, task *pod_info.PodInfo, job *podgroup_info.PodGroupInfo, node *node_info.NodeInfo) bool = forall i int :: 0 <= i && i < len(ssn.PredicateFns) ==> api.predicateOK(ssn.PredicateFns[i], task, job, node)
+//@ func (*Session).PredicateFn
+//@   props C01 C03 C04
+//@   usestable Session.PredicateFns []api.PredicateFn Session.ClusterInfo Session.Cache Session.eventHandlers []*EventHandler ClusterInfo.PodGroupInfos ClusterInfo.Nodes map[common_info.PodGroupID]*podgroup_info.PodGroupInfo map[string]*node_info.NodeInfo
+//@   requires ssn != nil && task != nil
+//@   requires forall i int :: 0 <= i && i < len(ssn.PredicateFns) ==> ssn.PredicateFns[i] != nil
+//@   modifies *
+//@   loop 1
+//@     modifies *
+//@     invariant 0 - 1 <= rangeindex && rangeindex < len(ssn.PredicateFns)
+//@     invariant ssn.PredicateFns == old(ssn.PredicateFns)
+//@     invariant forall i int :: 0 <= i && i < len(ssn.PredicateFns) ==> ssn.PredicateFns[i] == old(ssn.PredicateFns[i])
+//@     invariant forall i int :: 0 <= i && i <= rangeindex ==> api.predicateOK(old(ssn.PredicateFns[i]), task, job, node)
+//@     invariant pluginFrame()
+//@     invariant skelSame(ssn)
+//@     decreases len(ssn.PredicateFns) - rangeindex
+//@   ensures [allPredicates] result == nil ==> old(predicatesOK(ssn, task, job, node))
+//@   ensures [firstErrorWins] old(predicatesOK(ssn, task, job, node)) ==> result == nil
+//@   ensures [logsSame] logsSame()
+//@   ensures [virtual] noEmission() && reversals() == old(reversals()) && reverseFailures() == old(reverseFailures())
+//@   ensures [sessionKept] old(sessOK(ssn)) ==> sessionKept(ssn)
+//@ end
+
 //@ declare jobCapacityVerdict(ssn *Session, job *podgroup_info.PodGroupInfo) bool
 
 //@ func (*Session).FittingNode
@@ -987,3 +1022,6 @@ package framework
 //@ stable Session.PreemptScenarioValidatorFns
 //@ stable Session.ReclaimVictimFilterFns
 //@ stable Session.PreemptVictimFilterFns
+// (helper "sess") the registration slices of the dispatch wrappers: each is written only by its Add...Fn method
+//@ stable Session.PredicateFns
+//@ stable slicetype []api.PredicateFn
